@@ -75,6 +75,8 @@ pub struct Cfg {
     /// the emulated futex wake of a thread's clear-tid word is delivered 0..=max quanta after the
     /// thread's exit (the kernel's zero write is visible at once)
     pub defer_ctid_wake_max: u32,
+    /// after the first injected clone failure every later clone of the run fails with EAGAIN too
+    pub clone_keeps_failing: bool,
     /// draw the uniform scheduling mode (a thread choice at every scheduling point) in half of
     /// the runs instead of one in six
     pub prefer_uniform: bool,
@@ -102,6 +104,7 @@ impl Cfg {
             hold_max: 0,
             window_hold_max: 0,
             defer_ctid_wake_max: 0,
+            clone_keeps_failing: false,
             prefer_uniform: false,
         }
     }
@@ -199,6 +202,8 @@ pub enum End {
     /// a thread reached no stop within the wall-clock limit; the run is not replayable
     Watchdog,
     Budget,
+    /// clone kept failing and the program kept calling it (inside one spawn)
+    SpawnStuck { attempts: u32 },
     Harness(String),
 }
 
@@ -420,6 +425,7 @@ struct Tracer<'a> {
     parks: u64,
     timeouts: u64,
     pending_ctid_wakes: Vec<(u64, usize, u64)>,
+    clone_failures_in_a_row: u32,
     deferred_ctid_wakes: u64,
     wakes: u64,
     ctid_wakes: u64,
@@ -510,6 +516,7 @@ pub fn run(cfg: &Cfg, dec: &mut Dec) -> Out {
         parks: 0,
         timeouts: 0,
         pending_ctid_wakes: Vec::new(),
+        clone_failures_in_a_row: 0,
         deferred_ctid_wakes: 0,
         wakes: 0,
         ctid_wakes: 0,
@@ -589,6 +596,7 @@ fn end_code(e: &End) -> u64 {
         End::Exited(c) => 0x100 | (*c as u64 & 0xff),
         End::Crash { thread, sig, .. } => 0x200 | (*sig as u64) << 16 | *thread as u64,
         End::Deadlock(v) => 0x300 | (v.len() as u64) << 16,
+        End::SpawnStuck { attempts } => 0x600 | u64::from(*attempts) << 16,
         End::Watchdog => 0x400,
         End::Budget => 0x500,
         End::Harness(_) => 0x600,
@@ -1285,6 +1293,15 @@ impl<'a> Tracer<'a> {
                 Ok(Act::Real)
             }
             NR_CLONE => {
+                if self.cfg.clone_keeps_failing && self.fired.iter().any(|f| f.what == "clone") {
+                    self.clone_failures_in_a_row += 1;
+                    if self.clone_failures_in_a_row >= 200 {
+                        return Err(End::SpawnStuck { attempts: self.clone_failures_in_a_row });
+                    }
+                    self.fired.push(Fired { what: "clone", errno: libc::EAGAIN, thread: t, rec_pos: self.records.len() });
+                    self.log(t, E_FAULT, libc::EAGAIN as u64, 5, || format!("t{t} fault: clone keeps failing -> -EAGAIN"));
+                    return Ok(Act::Emu(-(libc::EAGAIN as i64), true));
+                }
                 if self.cfg.faults.clone {
                     if let Some(e) = self.fault(t, "clone", &[libc::EAGAIN, libc::ENOMEM]) {
                         return Ok(Act::Emu(-(e as i64), true));
